@@ -115,6 +115,12 @@ void MEDDLY::unary_operation::compute(const dd_edge &arg, dd_edge &res)
     if (!checkForestCompatibility()) {
         throw error(error::INVALID_OPERATION, __FILE__, __LINE__);
     }
+    // Node handles are only meaningful in the forests this operation
+    // was built for: the operand is read in argF, and the result is a
+    // node handle of resF.
+    if (!arg.isAttachedTo(argF) || !res.isAttachedTo(resF)) {
+        throw error(error::FOREST_MISMATCH, __FILE__, __LINE__);
+    }
 #ifdef ALLOW_OLD_UNARY_0_17_6
     if (new_style) {
         node_handle resp;
